@@ -38,6 +38,10 @@ type caseCfg struct {
 	CloseRace     bool          `json:"close_race"`
 	TailWriters   int           `json:"tail_writers"`
 	CloseAfterOps int           `json:"close_after_tail_ops"`
+	// Rotator: a maintenance goroutine seals the active memtable again and again while the
+	// history runs (LSM.Rotate, no waiting), so several sealed memtables holding the same keys
+	// are in flight at once.
+	Rotator bool `json:"rotator"`
 }
 
 var keyPool = []string{"ka", "kb", "kc", "kd"}
@@ -83,6 +87,7 @@ func draw(c *core.Case) caseCfg {
 	cfg.CloseRace = rng.Intn(2) == 0
 	cfg.TailWriters = 2 + rng.Intn(3)
 	cfg.CloseAfterOps = rng.Intn(8)
+	cfg.Rotator = c.Idx%3 == 1
 	return cfg
 }
 
@@ -237,8 +242,34 @@ func run(c *core.Case) {
 			}
 		}(g, ops)
 	}
+	rotStop := make(chan struct{})
+	var rotWG sync.WaitGroup
+	if cfg.Rotator {
+		rotWG.Add(1)
+		go func() {
+			defer rotWG.Done()
+			start.Wait()
+			n := 0
+			for {
+				select {
+				case <-rotStop:
+					c.Count("rotator_memtable_seals", n)
+					return
+				default:
+				}
+				db.VerifLSM().Rotate()
+				n++
+				if im := db.VerifLSM().VerifLayout().Immutables; im >= 2 {
+					c.Count("rotator_saw_2plus_sealed_memtables", 1)
+				}
+				time.Sleep(150 * time.Microsecond)
+			}
+		}()
+	}
 	start.Done()
 	wg.Wait()
+	close(rotStop)
+	rotWG.Wait()
 
 	// Tail: writers keep writing while Close runs (only writes race Close; the
 	// property names "closed" as a write error, reads on a closing DB are not
@@ -378,7 +409,7 @@ func init() {
 		Level: "exploration",
 		Rule: "case = one short concurrent history on a fresh DB: 3-8 goroutines x 15-40 seeded ops (45% Set of a unique value, 10% Del, 45% Get) on 1-4 keys, option set drawn per case " +
 			"(skiplist/ART, memtable 8KiB-1MiB so rotations+flushes happen inside the history, value sizes 12B-1.5KiB inline or in the value log, WriteHotKeyLimit 6/16/40 so hot-key throttling rejects writes, " +
-			"MaxBatchSize 600 so too-large rejects writes, WriteBatchWait 0/200us); in half of the cases 2-4 writers keep writing while Close runs; then reopen and read every key. " +
+			"MaxBatchSize 600 so too-large rejects writes, WriteBatchWait 0/200us; in every third case a maintenance goroutine seals the active memtable every 150us so that several sealed memtables with the same keys are in flight); in half of the cases 2-4 writers keep writing while Close runs; then reopen and read every key. " +
 			"Every call is stamped before/after from one monotonic clock; each key's history is checked with porcupine against a register model (failed writes = no-ops, unknown outcomes open-ended). " +
 			"A case is non-trivial iff the timestamps show >=1 read overlapping a write and >=1 write overlapping a write on the same key; distinct = distinct sequences of read results",
 		Assumptions: []string{
